@@ -11,3 +11,91 @@ Print Assumptions c08_footnote_entries.
 Theorem c08_footnote_count : forall urls k, length (finalise_from k urls) = length urls.
 Proof. exact finalise_from_length. Qed.
 Print Assumptions c08_footnote_count.
+
+(* ---------- tree level (Proofs/Footnotes.v): the link list is threaded in document order; reference text; final list ---------- *)
+From H2T Require Import Sub Css Dom Render Api Proofs.WrapInv Proofs.RenderWidth Proofs.Footnotes.
+Theorem links_threaded :
+  forall (d : deco) (mw : N) (n : rnode) (st st' : rstate) (tp : subr),
+       top st = Ok tp ->
+       render_node d mw n st = Ok st' -> links st' = links st ++ link_targets d mw (sopts tp) n (swidth_ tp).
+Proof. exact Footnotes.links_threaded. Qed.
+Print Assumptions links_threaded.
+
+Theorem link_targets_no_table :
+  forall (d : deco) (mw : N) (o : ropts) (n : rnode),
+       no_table n = true -> forall w : N, link_targets d mw o n w = all_links n.
+Proof. exact Footnotes.link_targets_no_table. Qed.
+Print Assumptions link_targets_no_table.
+
+Theorem link_targets_subseq :
+  forall (d : deco) (mw : N) (o : ropts) (n : rnode) (w : N),
+       subseq (link_targets d mw o n w) (all_links n).
+Proof. exact Footnotes.link_targets_subseq. Qed.
+Print Assumptions link_targets_subseq.
+
+Theorem link_reference :
+  forall (d : deco) (mw : N) (href : text) (cs : list rnode) (sty : cstyle) 
+         (st st' : rstate) (tp : subr),
+       top st = Ok tp ->
+       render_node d mw (RN (ILink href cs) sty) st = Ok st' ->
+       let inner := kids_lt d mw (sopts tp) cs (swidth_ tp) in
+       let k := (length (links st) + 1 + length inner)%nat in
+       exists (st1 : rstate) (ps : pushed) (st2 st3 st4 st5 : rstate),
+         apply_style d st sty = Ok (st1, ps) /\
+         with_top {| stack := stack st1; links := links st ++ [href] |}
+           (fun s : subr => sub_start_link d s href) = Ok st2 /\
+         fold_left (fun (acc : res rstate) (c : rnode) => do s <- acc; render_node d mw c s) cs (Ok st2) =
+         Ok st3 /\
+         with_top st3 (fun s : subr => sub_end_link d s) = Ok st4 /\
+         links st4 = links st ++ href :: inner /\
+         shape st4 = shape st /\
+         (if o_footnotes (sopts tp)
+          then inline_text d st4 (ftext ([91] ++ dec_N (N.of_nat k) ++ [93]))
+          else Ok st4) = Ok st5 /\ unwind d ps st5 = Ok st'.
+Proof. exact Footnotes.link_reference. Qed.
+Print Assumptions link_reference.
+
+Theorem render_tree_footnotes :
+  forall (d : deco) (mw : N) (o : ropts) (width : N) (tree : rnode) (s : subr),
+       render_tree d mw o width tree = Ok s ->
+       let L := link_targets d mw o tree width in
+       exists (st : rstate) (body : subr),
+         render_node d mw tree {| stack := [sub_new width o]; links := [] |} = Ok st /\
+         stack st = [body] /\
+         links st = L /\
+         swidth_ body = width /\
+         sopts body = o /\
+         match (if o_footnotes o then L else []) with
+         | [] => s = body
+         | _ :: _ => exists b1 : subr, start_block body = Ok b1 /\ s = fmt_links b1 (finalise_from 1 L)
+         end.
+Proof. exact Footnotes.render_tree_footnotes. Qed.
+Print Assumptions render_tree_footnotes.
+
+Theorem render_tree_output :
+  forall (d : deco) (mw : N) (o : ropts) (width : N) (tree : rnode) (s : subr),
+       render_tree d mw o width tree = Ok s ->
+       o_footnotes o = true ->
+       let L := link_targets d mw o tree width in
+       L <> [] ->
+       exists (st : rstate) (body b1 : subr) (new : list rline),
+         render_node d mw tree {| stack := [sub_new width o]; links := [] |} = Ok st /\
+         stack st = [body] /\
+         start_block body = Ok b1 /\
+         sub_into_lines s = Ok (slines b1 ++ new) /\
+         entry_groups (map entry_text (finalise_from 1 L)) (pf_text b1) new /\
+         (o_wrap_links o = false ->
+          map rline_string new =
+          match map entry_text (finalise_from 1 L) with
+          | [] => []
+          | e :: es => (pf_text b1 ++ e) :: es
+          end) /\
+         (forall (i : nat) (u : text),
+          nth_error L i = Some u ->
+          option_map (fun l : tline => cps (entry_text l)) (nth_error (finalise_from 1 L) i) =
+          Some
+            (map (fun c : N => if c =? 10 then 32 else c)
+               ([91] ++ dec_N (1 + N.of_nat i) ++ [93; 58; 32] ++ cps u))).
+Proof. exact Footnotes.render_tree_output. Qed.
+Print Assumptions render_tree_output.
+
